@@ -386,3 +386,44 @@ def r18g(ctx):
         ctx.ok(cid, c.module.loc(fn), "the flat spelling becomes a single conjunction")
     else:
         ctx.bad(cid, c.module.loc(tests[0]), f"on the branch where `{fparam}[0]` is not a list the filters are not wrapped whole (`[{fparam}]`) into one conjunction: a flat list [(a, '>', 1), (b, '<', 0)] - documented as a AND b - is read as a OR b")
+
+
+@rule(
+    "R18h",
+    ["C18", "C15"],
+    """A FILE AND ITS FRAGMENT ARE SAMPLED BY THE SAME INDEX: the statistics sampler of the arrow reader picks files by size rank and hands
+    two parallel lists to `load_statistics` - file infos and fragments - which caches the statistics of fragment k under the path of file
+    info k. Both lists must be built from the SAME index expression into `finfos` / `frags` (today: `sort_ix`); if one is taken by rank
+    and the other by position (`frags[::stepsize]`), statistics are cached under the wrong file and later reads trust row counts /
+    min-max values of another file.""",
+)
+def r18h(ctx):
+    model = ctx.model
+    c = model.cls("ReadParquetPyarrowFS", "io.parquet")
+    n = 0
+    for name, mem in c.members.items():
+        if mem.kind == "attr" or not isinstance(mem.node, ast.FunctionDef):
+            continue
+        fn = mem.node
+        for call in (x for x in ast.walk(fn) if isinstance(x, ast.Call) and is_self_attr(x.func, "load_statistics") and len(x.args) == 2 and all(isinstance(a, ast.Name) for a in x.args)):
+            n += 1
+            cid = f"io.parquet.ReadParquetPyarrowFS.{name}:parallel-samples"
+            idx = []
+            for a in call.args:
+                subs = set()
+                for st in ast.walk(fn):
+                    src = None
+                    if isinstance(st, ast.Call) and isinstance(st.func, ast.Attribute) and st.func.attr == "append" and isinstance(st.func.value, ast.Name) and st.func.value.id == a.id and st.args:
+                        src = st.args[0]
+                    elif isinstance(st, ast.Assign) and any(isinstance(t, ast.Name) and t.id == a.id for t in st.targets):
+                        src = st.value
+                    if src is None:
+                        continue
+                    for sub in (y for y in ast.walk(src) if isinstance(y, ast.Subscript)):
+                        subs.add(ast.unparse(sub.slice))
+                idx.append(subs)
+            if idx[0] and idx[0] == idx[1]:
+                ctx.ok(cid, c.module.loc(call), f"both lists are selected by `{sorted(idx[0])[0]}`")
+            else:
+                ctx.bad(cid, c.module.loc(call), f"the file infos are selected by {sorted(idx[0])} and the fragments by {sorted(idx[1])}: `load_statistics` pairs them by position, so the statistics of one file are cached under the path of another and every later plan (lengths, divisions, row-group pruning) reads another file's numbers")
+    ctx.floor("paired samples handed to load_statistics", n, 1)
